@@ -579,19 +579,10 @@ func inSchedConfigs() ([]sched.Config, func(string) *sched.Config) {
 		bounds = append(bounds, sched.Bound{PB: 1, DB: 2}, sched.Bound{PB: 2, DB: 1}, sched.Bound{PB: 2, DB: 2})
 	}
 	var out []sched.Config
-	for _, c := range inConfigs(true) {
-		c := c
-		c.chain = true // a second consumption step per callback in both tiers
-		out = append(out, sched.Config{Property: "C01", Name: c.name, Bounds: bounds, Horizon: 20000, Deadline: seqmc.Deadline(), DelayBounded: true, New: func() sched.Scenario { return inWorld(c) }})
-	}
-	for _, mode := range []string{"LT", "ET"} {
-		for _, segs := range [][]int{{500, 600}, {1500}} {
-			c := inCfg{name: fmt.Sprintf("in/client/%s/%v/fin=true", mode, segs), mode: mode, segs: segs, finWith: true, chain: true}
-			out = append(out, sched.Config{Property: "C01", Name: c.name, Bounds: bounds, Horizon: 20000, Deadline: seqmc.Deadline(), DelayBounded: true, New: func() sched.Scenario { return inClientWorld(c) }})
-		}
-	}
 	// scripted histories (no consumption choices, schedule deviations only): states of the inbound ring
-	// that the choice-bounded scenarios above do not reach
+	// that the choice-bounded scenarios below do not reach. They come FIRST: their byte counts assume
+	// the 1024-byte ring a fresh ring-buffer pool hands out; later scenarios leave grown rings in the
+	// process-wide pool, with which the leftover would not wrap
 	for _, mode := range []string{"LT", "ET"} {
 		for _, sc := range []inCfg{
 			// the leftover ring (1024) wraps: 800 kept, 700 discarded, 100+600 more kept; then one Peek
@@ -608,6 +599,17 @@ func inSchedConfigs() ([]sched.Config, func(string) *sched.Config) {
 			c.mode = mode
 			c.name = "in/scripted/" + mode + "/" + sc.name
 			out = append(out, sched.Config{Property: "C01", Name: c.name, Bounds: engineBounds(1, 2, 0), Horizon: 20000, Deadline: seqmc.Deadline(), DelayBounded: true, New: func() sched.Scenario { return inWorld(c) }})
+		}
+	}
+	for _, c := range inConfigs(true) {
+		c := c
+		c.chain = true // a second consumption step per callback in both tiers
+		out = append(out, sched.Config{Property: "C01", Name: c.name, Bounds: bounds, Horizon: 20000, Deadline: seqmc.Deadline(), DelayBounded: true, New: func() sched.Scenario { return inWorld(c) }})
+	}
+	for _, mode := range []string{"LT", "ET"} {
+		for _, segs := range [][]int{{500, 600}, {1500}} {
+			c := inCfg{name: fmt.Sprintf("in/client/%s/%v/fin=true", mode, segs), mode: mode, segs: segs, finWith: true, chain: true}
+			out = append(out, sched.Config{Property: "C01", Name: c.name, Bounds: bounds, Horizon: 20000, Deadline: seqmc.Deadline(), DelayBounded: true, New: func() sched.Scenario { return inClientWorld(c) }})
 		}
 	}
 	for _, mode := range []string{"LT", "ET"} {
